@@ -59,8 +59,15 @@ pub broadcast axiom fn ax_cmp_v(a: f64, b: f64) ensures #[trigger] a.partial_cmp
 pub broadcast axiom fn ax_eq_v(a: f64, b: f64) ensures #[trigger] a.eq_spec(&b) == feq(a, b);
 pub broadcast axiom fn ax_cmp_r(a: &f64, b: &f64) ensures #[trigger] a.partial_cmp_spec(&b) == fcmp(*a, *b);
 pub broadcast axiom fn ax_eq_r(a: &f64, b: &f64) ensures #[trigger] a.eq_spec(&b) == feq(*a, *b);
+// IEEE facts about comparison that do not depend on the operands' values (discharged for ALL pairs of
+// f64 by the loop-free Kani harness `ieee_cmp_flip`): a < b  <=>  b > a, equality is symmetric, an
+// unordered pair is unordered both ways; == agrees with partial_cmp.
 pub axiom fn ax_obeys()
     ensures
+        forall|a: f64, b: f64| (#[trigger] fcmp(a, b) == Some(core::cmp::Ordering::Less)) == (fcmp(b, a) == Some(core::cmp::Ordering::Greater)),
+        forall|a: f64, b: f64| (#[trigger] fcmp(a, b) == Some(core::cmp::Ordering::Equal)) == (fcmp(b, a) == Some(core::cmp::Ordering::Equal)),
+        forall|a: f64, b: f64| (#[trigger] fcmp(a, b) is None) == (fcmp(b, a) is None),
+        forall|a: f64, b: f64| #[trigger] feq(a, b) == (fcmp(a, b) == Some(core::cmp::Ordering::Equal)),
         <f64 as AddSpec<f64>>::obeys_add_spec(),
         <f64 as AddSpec<&f64>>::obeys_add_spec(),
         <&f64 as AddSpec<f64>>::obeys_add_spec(),
@@ -159,6 +166,35 @@ pub fn __as_f64<T: ToF64>(x: T) -> (r: f64) ensures r == x.to_f64_spec() { x.__t
 // R13: identity on f64 (see rule R13 of the extractor)
 pub fn __idf(x: f64) -> (r: f64) ensures r == x { x }
 
+// ---- prelude fragment: ideal.rs ----
+// Floating point, layer 2 ("idealised real" mode of DESIGN.md 3.2): machine arithmetic treated as
+// mathematical.  rv maps a float to the real it denotes; rounding, overflow, NaN and signed zero are
+// ignored.  Used only where the property is a statement of real arithmetic.
+pub uninterp spec fn rv(x: f64) -> real;
+pub broadcast axiom fn ax_rv_add(a: f64, b: f64) ensures rv(#[trigger] fadd(a, b)) == rv(a) + rv(b);
+pub broadcast axiom fn ax_rv_sub(a: f64, b: f64) ensures rv(#[trigger] fsub(a, b)) == rv(a) - rv(b);
+pub broadcast axiom fn ax_rv_mul(a: f64, b: f64) ensures rv(#[trigger] fmul(a, b)) == rv(a) * rv(b);
+pub broadcast axiom fn ax_rv_div(a: f64, b: f64) ensures rv(b) != 0real ==> rv(#[trigger] fdiv(a, b)) == rv(a) / rv(b);
+pub broadcast axiom fn ax_rv_neg(a: f64) ensures rv(#[trigger] fneg(a)) == 0real - rv(a);
+pub broadcast axiom fn ax_rv_cmp(a: f64, b: f64)
+    ensures #[trigger] fcmp(a, b) == (if rv(a) < rv(b) { Some(core::cmp::Ordering::Less) }
+        else if rv(a) == rv(b) { Some(core::cmp::Ordering::Equal) } else { Some(core::cmp::Ordering::Greater) });
+pub broadcast axiom fn ax_rv_eq(a: f64, b: f64) ensures #[trigger] feq(a, b) == (rv(a) == rv(b));
+pub broadcast axiom fn ax_rv_max(a: f64, b: f64) ensures rv(#[trigger] fmaxf(a, b)) == (if rv(a) >= rv(b) { rv(a) } else { rv(b) });
+pub broadcast axiom fn ax_rv_min(a: f64, b: f64) ensures rv(#[trigger] fminf(a, b)) == (if rv(a) <= rv(b) { rv(a) } else { rv(b) });
+// (idealised) powf denotes a function of the real values of its arguments
+pub uninterp spec fn rpow(x: real, y: real) -> real;
+pub broadcast axiom fn ax_rv_powf(a: f64, b: f64) ensures rv(#[trigger] fpowf(a, b)) == rpow(rv(a), rv(b));
+pub axiom fn ax_rv_lits()
+    ensures rv(0.0f64) == 0real, rv(1.0f64) == 1real, rv(2.0f64) == 2real, rv(0.5f64) * 2real == 1real;
+pub broadcast group ideal {
+    ax_rv_add, ax_rv_sub, ax_rv_mul, ax_rv_div, ax_rv_neg, ax_rv_cmp, ax_rv_eq, ax_rv_max, ax_rv_min, ax_rv_powf
+}
+// (idealised) integer-to-float casts are exact
+pub broadcast axiom fn ax_rv_u64(n: u64) ensures rv(#[trigger] u64_to_f64(n)) == n as real;
+pub broadcast axiom fn ax_rv_usize(n: usize) ensures rv(#[trigger] usize_to_f64(n)) == n as real;
+pub broadcast group ideal_casts { ax_rv_u64, ax_rv_usize }
+
 use vstd::std_specs::iter::{zip_iter_snd, zip_iter_fst};
 pub trait PlayerRecurse {
     fn update_cum_strat(&mut self, prob: f64);
@@ -182,10 +218,10 @@ fn update_cum_strat(&mut self, prob: f64)
         final(self).cum_strat@.len() == old(self).cum_strat@.len(),
         // iteration t contributes the current strategy weighted by the player's own reach
         old(self).strat@.len() == old(self).cum_strat@.len() ==> forall|i: int| 0 <= i < old(self).cum_strat@.len() ==>
-            #[trigger] final(self).cum_strat@[i] == fadd(old(self).cum_strat@[i], fmul(prob, old(self).strat@[i])), // @ob C08.V.update_cum_strat.vanilla
+            rv(#[trigger] final(self).cum_strat@[i]) == rv(old(self).cum_strat@[i]) + rv(prob) * rv(old(self).strat@[i]), // @ob C08.V.update_cum_strat.vanilla
 {
-broadcast use fl;
-proof { ax_obeys(); assume(self.strat@.len() == self.cum_strat@.len()); }
+broadcast use fl; broadcast use ideal;
+proof { ax_obeys(); ax_rv_lits(); assume(self.strat@.len() == self.cum_strat@.len()); }
 let ghost n = self.cum_strat@.len();
 let ghost st = self.strat@;
 let ghost c0 = self.cum_strat@;
@@ -197,12 +233,12 @@ invariant
     zip_iter_snd(it.snapshot@).remaining().len() == n,
     forall|i: int| 0 <= i < n ==> (it.snapshot@.remaining()[i]).1 == #[trigger] zip_iter_snd(it.snapshot@).remaining()[i],
     forall|i: int| 0 <= i < n ==> *(#[trigger] it.snapshot@.remaining()[i]).0 == st[i] && *(it.snapshot@.remaining()[i]).1 == c0[i],
-    forall|i: int| 0 <= i < it.index@ ==> *final((#[trigger] it.snapshot@.remaining()[i]).1) == fadd(c0[i], fmul(prob, st[i])),
+    forall|i: int| 0 <= i < it.index@ ==> rv(*final((#[trigger] it.snapshot@.remaining()[i]).1)) == rv(c0[i]) + rv(prob) * rv(st[i]),
 ensures
-    forall|i: int| 0 <= i < n ==> *final(#[trigger] zip_iter_snd(it.snapshot@).remaining()[i]) == fadd(c0[i], fmul(prob, st[i])),
+    forall|i: int| 0 <= i < n ==> rv(*final(#[trigger] zip_iter_snd(it.snapshot@).remaining()[i])) == rv(c0[i]) + rv(prob) * rv(st[i]),
 {
-broadcast use fl;
-proof { ax_obeys(); }
+broadcast use fl; broadcast use ideal;
+proof { ax_obeys(); ax_rv_lits(); }
 
             *cum = *cum + ( prob * val);
         }
@@ -224,10 +260,10 @@ fn update_cum_strat<'a>(&mut self)
         final(self).reg.cum_strat@.len() == old(self).reg.cum_strat@.len(),
         // external sampling: the sampled player's current strategy is added unweighted
         old(self).reg.strat@.len() == old(self).reg.cum_strat@.len() ==> forall|i: int| 0 <= i < old(self).reg.cum_strat@.len() ==>
-            #[trigger] final(self).reg.cum_strat@[i] == fadd(old(self).reg.cum_strat@[i], old(self).reg.strat@[i]), // @ob C08.V.update_cum_strat.external
+            rv(#[trigger] final(self).reg.cum_strat@[i]) == rv(old(self).reg.cum_strat@[i]) + rv(old(self).reg.strat@[i]), // @ob C08.V.update_cum_strat.external
 {
-broadcast use fl;
-proof { ax_obeys(); assume(self.reg.strat@.len() == self.reg.cum_strat@.len()); }
+broadcast use fl; broadcast use ideal;
+proof { ax_obeys(); ax_rv_lits(); assume(self.reg.strat@.len() == self.reg.cum_strat@.len()); }
 let ghost n = self.reg.cum_strat@.len();
 let ghost st = self.reg.strat@;
 let ghost c0 = self.reg.cum_strat@;
@@ -239,12 +275,12 @@ invariant
     zip_iter_snd(it.snapshot@).remaining().len() == n,
     forall|i: int| 0 <= i < n ==> (it.snapshot@.remaining()[i]).1 == #[trigger] zip_iter_snd(it.snapshot@).remaining()[i],
     forall|i: int| 0 <= i < n ==> *(#[trigger] it.snapshot@.remaining()[i]).0 == st[i] && *(it.snapshot@.remaining()[i]).1 == c0[i],
-    forall|i: int| 0 <= i < it.index@ ==> *final((#[trigger] it.snapshot@.remaining()[i]).1) == fadd(c0[i], st[i]),
+    forall|i: int| 0 <= i < it.index@ ==> rv(*final((#[trigger] it.snapshot@.remaining()[i]).1)) == rv(c0[i]) + rv(st[i]),
 ensures
-    forall|i: int| 0 <= i < n ==> *final(#[trigger] zip_iter_snd(it.snapshot@).remaining()[i]) == fadd(c0[i], st[i]),
+    forall|i: int| 0 <= i < n ==> rv(*final(#[trigger] zip_iter_snd(it.snapshot@).remaining()[i])) == rv(c0[i]) + rv(st[i]),
 {
-broadcast use fl;
-proof { ax_obeys(); }
+broadcast use fl; broadcast use ideal;
+proof { ax_obeys(); ax_rv_lits(); }
 
             *cum = *cum + ( val);
         }
@@ -256,7 +292,7 @@ proof { ax_obeys(); }
 pub proof fn __canary_must_fail()
     ensures false, // @ob __canary
 {
-    broadcast use fl; ax_obeys();
+    broadcast use fl; broadcast use ideal; ax_obeys(); ax_rv_lits();
 }
 
 } // verus!
